@@ -16,7 +16,8 @@ RULE = ('a polling subscriber (Image::poll through hook H3 when the repository h
         'Image::poll) with 1-2 publishers x 1-3 messages (unfragmented, fragmented, padding at the term end, rotation) on 1 KiB / 2 KiB '
         'terms under the deterministic H2 scheduler: random schedules, every schedule with at most one pre-emption of the small '
         'configurations, and - the crash points - every prefix length of a single publisher\'s access sequence after which the '
-        'publisher is stopped for ever while the subscriber keeps polling. Compared: trace (accessor, region, offset, length, operands, '
+        'publisher is stopped for ever while the subscriber keeps polling; plus exclusive-publisher and try_claim/commit/abort '
+        'threads (real ExclusivePublication / BufferClaim, judged by the oracle only - no thread machine). Compared: trace (accessor, region, offset, length, operands, '
         'value read), per-thread results, final dump, subscriber position, fragments handed to the handler (offset, length, flags, bytes). '
         'The oracle re-walks the final log, checks the delivered fragments are a prefix of its committed data frames with identical bytes, '
         'the position rule, no write after a commit, and runs the vector-clock race detector (classes from the regenerated ordering table) '
@@ -47,16 +48,23 @@ def thread_expr(t):
     raise ValueError(t)
 
 
+def _thread_line(t):
+    if t['k'] == 'P':
+        return 'T=P:%d:%s' % (t['budget'], ','.join('%dx%d' % (k, l) for k, l in t['msgs']))
+    if t['k'] == 'X':
+        return 'T=X:%d:%s' % (t['budget'], ','.join('%dx%d' % (k, l) for k, l in t['msgs']))
+    if t['k'] == 'Q':
+        return 'T=Q:%d:%s' % (t['budget'], ','.join('%dx%d%s' % (k, l, 'a' if a else '') for k, l, a in t['msgs']))
+    if t['k'] == 'E':
+        return 'T=E:%s' % ','.join('%s%d' % (o, v) for o, v in t['ops'])
+    return 'T=R:%d:%d' % (t['polls'], t['limit'])
+
+
 def impl_line(c):
     parts = ['run', 'bits=%d' % c['bits'], 'mtu=%d' % c['mtu'], 'init=%d' % c['init'], 'n0=%d' % c['n0'], 'off0=%d' % c['off0'],
              'limit=%d' % c['limit']]
     for t in c['threads']:
-        if t['k'] == 'P':
-            parts.append('T=P:%d:%s' % (t['budget'], ','.join('%dx%d' % (k, l) for k, l in t['msgs'])))
-        elif t['k'] == 'E':
-            parts.append('T=E:%s' % ','.join('%s%d' % (o, v) for o, v in t['ops']))
-        else:
-            parts.append('T=R:%d:%d' % (t['polls'], t['limit']))
+        parts.append(_thread_line(t))
     parts.append('S=' + ','.join(str(x) for x in c['sched']))
     st = c.get('stops') or []
     if st:
@@ -65,6 +73,8 @@ def impl_line(c):
 
 
 def model_expr(c, mode):
+    if any(t['k'] in ('X', 'Q') for t in c['threads']):
+        return None        # exclusive publisher / try_claim: no thread machine; the oracle alone judges the run
     return 'run_case3 %s %s [%s] %s %s' % (cfg_expr(c), z(c['limit']), '; '.join(thread_expr(t) for t in c['threads']),
                                            c02.coq_nat_list(c['sched']), c02.stops_expr(c))
 
@@ -92,12 +102,19 @@ def known_class(c, mode, obs):
 
 
 def steps_upper(c, t):
+    if t['k'] in ('X', 'Q'):
+        mp = c['mtu'] - 32
+        n = 0
+        for m in t['msgs']:
+            l = m[1]
+            n += 6 + 6 * (1 if l <= mp else (l + mp - 1) // mp)
+        return n + t['budget'] * 5 + 10
     if t['k'] == 'R':
         frames = 0
         for x in c['threads']:
-            if x['k'] == 'P':
+            if x['k'] in ('P', 'X', 'Q'):
                 mp = c['mtu'] - 32
-                frames += sum(1 if l <= mp else (l + mp - 1) // mp for k, l in x['msgs']) + 1
+                frames += sum(1 if m[1] <= mp else (m[1] + mp - 1) // mp for m in x['msgs']) + 1
         return t['polls'] * 2 + 4 * frames + 4
     return c02.steps_upper(c, t)
 
@@ -177,7 +194,7 @@ def generate(rng, tier):
                         e['sched'] = [first] * i + [second] * j + [first] * ub[first] + [second] * ub[second]
                         cases.append(e)
     # (3) random: 1-2 publishers x 1-3 messages with a reader, some with crash points
-    for i in range(4000 if big else 220):
+    for i in range(4000 if big else 180):
         c = c02.base_case(rng, bits=rng.choice([10, 10, 11]), npub=rng.choice([1, 2, 2]), nmsg=rng.choice([1, 2, 3]))
         c['kind'] = 'rand'
         with_reader(c, rng)
@@ -187,6 +204,29 @@ def generate(rng, tier):
             c['stops'] = [None] * len(c['threads'])
             c['stops'][t] = rng.randrange(0, steps_upper(c, c['threads'][t]))
             c['kind'] = 'rand-crash'
+        cases.append(c)
+    # (4) exclusive publisher and try_claim / commit / abort (oracle only: prefix, position, commits final, race detector)
+    for i in range(1500 if big else 100):
+        bits = rng.choice([10, 10, 11])
+        tl = 1 << bits
+        mtu = rng.choice([64, 96, 256])
+        n0 = rng.choice([0, 1, 2])
+        off0 = rng.choice([0, tl - 64, tl - 96, tl - 160, tl - 256])
+        nm = rng.choice([1, 2, 3])
+        c = {'kind': 'excl' if i % 2 == 0 else 'claim', 'bits': bits, 'mtu': mtu, 'init': rng.choice([5, -3, 2**31 - 2]), 'n0': n0,
+             'off0': off0, 'limit': (n0 + 2) * tl, 'threads': [], 'sched': [], 'stops': []}
+        if i % 2 == 0:
+            c['threads'].append({'k': 'X', 'budget': nm + 2, 'msgs': [[j + 1, rng.choice([0, 1, 20, 40, 64, 96, tl // 8])] for j in range(nm)]})
+        else:
+            c['threads'].append({'k': 'Q', 'budget': nm + 2,
+                                 'msgs': [[j + 1, rng.choice([0, 1, 20, mtu - 32]), rng.random() < 0.3] for j in range(nm)]})
+            if rng.random() < 0.5:
+                c['threads'].append({'k': 'P', 'budget': 3, 'msgs': [[9, rng.choice([10, 40])]]})
+        with_reader(c, rng)
+        c['sched'] = random_schedule(rng, c)
+        if i % 3 == 0:
+            c['stops'] = [None] * len(c['threads'])
+            c['stops'][0] = rng.randrange(0, steps_upper(c, c['threads'][0]))
         cases.append(c)
     return cases
 
